@@ -33,7 +33,7 @@ class AssertNoInvalidKwargs(FnSpec):
         D = dom(c.pre, c.ref("kwargs"))
         bad = z3.Or(z3.Select(D, S("_ARGS")), z3.Select(D, S("_KWARGS")))
         return [("none_iff_valid", (v.t == NONE) == z3.Not(bad)),
-                ("else_fresh_TypeError", z3.Implies(v.t != NONE, builtin_exc(v.t, "TypeError", c.pre.ctr)))]
+                ("else_fresh_TypeError", z3.Implies(v.t != NONE, z3.And(builtin_exc(v.t, "TypeError", c.pre.ctr), cause_of(c.post, v.t) == NONE)))]
 
 
 class AssertResolvedKwargsValid(FnSpec):
@@ -46,7 +46,7 @@ class AssertResolvedKwargsValid(FnSpec):
         D = dom(c.pre, c.ref("resolved_kwargs"))
         bad = z3.And(z3.Length(lst(c.pre, c.ref("postconditions"))) > 0, z3.Or(z3.Select(D, S("result")), z3.Select(D, S("OLD"))))
         return [("none_iff_valid", (v.t == NONE) == z3.Not(bad)),
-                ("else_fresh_TypeError", z3.Implies(v.t != NONE, builtin_exc(v.t, "TypeError", c.pre.ctr)))]
+                ("else_fresh_TypeError", z3.Implies(v.t != NONE, z3.And(builtin_exc(v.t, "TypeError", c.pre.ctr), cause_of(c.post, v.t) == NONE)))]
 
 
 class SelectConditionKwargs(FnSpec):
